@@ -60,7 +60,12 @@ def one_history(ctx, hno, steps):
         if eff_init > eff_size:
             return fail("ctor-accepts", "constructor accepted "
                         "initialized_size %d > size %d" % (eff_init, eff_size))
-    except ValueError:
+    except Exception as e:   # noqa
+        if not isinstance(e, ValueError):
+            return fail("ctor-raises", "constructor raised %s: %s (the "
+                        "property names ValueError for initialized_size > "
+                        "size and no exception otherwise)"
+                        % (type(e).__name__, str(e)[:80]))
         impl.append("ValueError")
         ctx.evaluations += 1
         ctx.count("ctor:ValueError")
